@@ -387,3 +387,51 @@ def fixed_width_mods(ctx):
     """Every int.to_bytes of keys.py / encoding.py (child keys, chain codes, fingerprints, indexes) uses a width that does not depend on the value: BIP32 fields are fixed width (32-byte keys, 4-byte indexes)."""
     from .common_width import fixed_width_modules as run
     run(ctx, ['keys', 'encoding'], 'a derived key or index with leading zero bytes is serialised shorter: HMAC input and extended-key layout shift, another child key results', 25)
+
+
+@PROP.obligation('C03.seed-lengths', canaries=[
+    mut.insert_before('keys', 'HDKey.from_seed', 'i = hmac.new', "if len(seed) not in [16, 32, 64]:\n    raise BKeyError('seed length')", 'master key refused for seeds of 17..31 and 33..63 bytes'),
+])
+def seed_lengths(ctx):
+    """HDKey.from_seed produces the BIP32 master key for every seed of 128 to 512 bits: evaluated with the seed symbolic, no raising path
+    is decided by the LENGTH of the seed for any length in 16..64 bytes (the only refusal is the one BIP32 prescribes: I_L = 0 or >= n)."""
+    q = 'keys:HDKey.from_seed'
+    fn = ctx.repo.func(q)
+    it = Interp(ctx.repo, 'keys', hooks=LAYOUT_HOOKS)
+    try:
+        exits = it.run_function(fn, {'import_seed': S(('var', 'seed'), 'bytes')})
+    except AnalysisError as e:
+        ctx.undecided('from_seed not evaluable: %s' % str(e)[:100])
+    n = 0
+    for e in exits:
+        if e.kind != 'raise':
+            continue
+        n += 1
+        lens = set(s_ for t, pol in e.pc for s_ in subterms(('w', t)) if isinstance(s_, tuple) and s_ and s_[0] == 'len')
+        if not lens:
+            continue
+        for size in (16, 17, 20, 24, 28, 31, 32, 33, 48, 63, 64):
+            sub = {l: size for l in lens}
+            decided = []
+            for t, pol in e.pc:
+                try:
+                    v = intv.truth_eval(intv.specialise(t, sub), {})
+                    decided.append(None if isinstance(v, tuple) else bool(v) == pol)
+                except (intv.Unknown, KeyError, TypeError, ZeroDivisionError):
+                    decided.append(None)
+            if decided and all(d is True for d in decided):
+                ctx.violate(q, 'a seed of %d bytes is refused (%s)' % (size, ' and '.join(('' if pol else 'not ') + show(t) for t, pol in e.pc)[:140]), e.node or fn,
+                            'BIP32 allows any seed of 128..512 bits: no master key, no derivation for such a seed')
+                break
+    ctx.saw('from_seed: %d raising path(s), none decided by a seed length in 16..64' % n)
+    ctx.floor(len(exits), 2, 'exits of from_seed')
+
+
+@PROP.obligation('C03.history-free')
+def history_free(ctx):
+    """The key identifier (hash160 / fingerprint) that child keys record as parent fingerprint is a function of the key alone: no method of
+    Key / HDKey fills that memo - or reads one - from state that depends on the arguments of an earlier, unrelated call
+    (Key._address_obj holds the address for the compressed flag / prefix asked for last)."""
+    from .common_cache import history_reads as run
+    run(ctx, 'keys', [['Key', 'HDKey']], 'Key / HDKey',
+        'after k.address_uncompressed() the children of k carry a parent fingerprint computed over the uncompressed point: their extended keys are not the BIP32 ones')
